@@ -59,6 +59,11 @@ pub assume_specification [char::is_ascii_hexdigit](c: &char) -> (b: bool);
 pub assume_specification<'a, T, P: FnMut(&'a T) -> bool> [<core::slice::Iter<'a, T> as Iterator>::position] (it: &mut core::slice::Iter<'a, T>, pred: P) -> (r: Option<usize>)
     where core::slice::Iter<'a, T>: Sized
     ensures match r { Some(i) => i < old(it).remaining().len(), None => true };
+// a Rust allocation (hence a slice) occupies at most isize::MAX bytes and a char is 4 bytes wide, so a [char] has at most
+// isize::MAX / 4 < usize::MAX / 2 elements (lex_tabs computes `count * 2`)
+#[verifier::external_body]
+pub broadcast proof fn axiom_char_slice_bytes(s: &[char])
+    ensures #[trigger] s@.len() * 2 <= usize::MAX {}
 pub trait CharExt { fn is_english_lingual(&self) -> bool; }
 impl CharExt for char { #[verifier::external_body] fn is_english_lingual(&self) -> bool { unimplemented!() } }
 '''
@@ -108,8 +113,13 @@ def build(repo):
                               ensures=['r.is_some()', 'r.unwrap().next_index >= 1', '_source@.len() >= 1 ==> r.unwrap().next_index <= _source@.len()']))
     U.fn(L, 'lex_word', found(extra=['r.is_some() ==> r.unwrap().token is Word']))
     # --- sub-lexers outside Verus: contract assumed here, bounded Kani harness in the same check
-    for f in ('lex_tabs', 'lex_spaces', 'lex_newlines'):
-        U.fn(L, f, assumed('source', 'take_while().count(): provided iterator methods cannot be specified in this Verus; Kani harness kani:lexing:whitespace (bounded, len<=5)'))
+    # --- white-space lexers: `source.iter().take_while(|c| **c == X).count()` is desugared (R7) into the counting loop it
+    # denotes; the token covers only the character it is named after (C02) and at least one, at most |source| of them
+    for f, ch, kind in (('lex_newlines', "'\\n'", 'Newline'), ('lex_tabs', "'\\t'", 'Space'), ('lex_spaces', "' '", 'Space')):
+        U.fn(L, f, found(extra=[f'r.is_some() ==> r.unwrap().token is {kind}',
+                                f'r.is_some() ==> forall|k: int| 0 <= k < r.unwrap().next_index ==> source@[k] == {ch}'],
+                         take_while_count=dict(invariant=[f'forall|k: int| 0 <= k < __n ==> {{E}}@[k] == {ch}']),
+                         proofs=[dict(at='body_start', kind='broadcast', text='broadcast use axiom_char_slice_bytes;')]))
     U.fn(L, 'lex_hex_number', assumed('source', 'String/from_str_radix; Kani harness kani:lexing:hex (bounded)'))
     U.fn(L, 'lex_number', assumed('source', 'str::parse::<f64>: out of reach of both verifiers; NOT checked by anything'))
     U.raw('''
